@@ -46,7 +46,11 @@ def check_chunk(chunk):
     return ChunkResult(n, distinct, list(fails.values()), samples=[chunk["items"][0]], extra=counts)
 
 
-REGRESSION = [{"features": ["flat", "merge_flat"]}, {"features": ["nested", "merge_flat"]}]
+REGRESSION = [{"features": ["flat", "merge_flat"]}, {"features": ["nested", "merge_flat"]},
+              # 12-element scatters feeding every consumer of arrays (two-digit scatter indices)
+              {"features": ["scatter12", "merge_flat"]}, {"features": ["scatter12", "merge_nested_arr"]},
+              {"features": ["scatter12", "when_scatter"]}, {"features": ["scatter12", "scatter_clt"]},
+              {"features": ["flat12", "merge_flat"]}, {"features": ["dot12", "merge_flat"]}]
 
 
 def programs(tier):
@@ -106,8 +110,8 @@ def main(argv=None):
         rep.internal_errors.append(f"generator problem: only {rep.coverage['both_succeed']} of {len(progs)} programs run on both "
                                    f"runners ({rep.coverage['both_fail']} fail on both) -- the agreement would be vacuous")
     rep.coverage["rule"] = (
-        "CWL v1.2 workflows generated from 40 feature variants (ExpressionTool and CommandLineTool steps, scatter over 1-2 inputs "
-        "with dotproduct / nested_crossproduct / flat_crossproduct and array lengths 0/1/3, when true/false and under scatter, "
+        "CWL v1.2 workflows generated from 44 feature variants (ExpressionTool and CommandLineTool steps, scatter over 1-2 inputs "
+        "with dotproduct / nested_crossproduct / flat_crossproduct and array lengths 0/1/3/12, when true/false and under scatter, "
         "pickValue first_non_null / the_only_non_null / all_non_null, linkMerge merge_nested / merge_flattened, valueFrom on self "
         "and another input, step-input default, nested sub-workflow, cwltool:Loop with 0/1/3/15 iterations and last/all output, "
         "record and File values): every single feature + ordered pairs (quick: one representative per feature class, every "
